@@ -671,7 +671,7 @@ namespace Givaro {
         static giv_all_inlined  Integer& sub   (Integer& res, const Integer& n1, const int64_t n2);
         /** @overload Integer::sub(Integer,Integer,Integer) */
         static giv_all_inlined  Integer& sub   (Integer& res, const Integer& n1, const uint64_t n2);
-        static giv_all_inlined  Integer& sub   (Integer& res, const Integer& n1, const int32_t n2) { return sub(res,n1,(uint64_t)n2); }
+        static giv_all_inlined  Integer& sub   (Integer& res, const Integer& n1, const int32_t n2) { return sub(res,n1,(int64_t)n2); }
         /** @overload Integer::sub(Integer,Integer,Integer) */
         static giv_all_inlined  Integer& sub   (Integer& res, const Integer& n1, const uint32_t n2) { return sub(res,n1,(uint64_t)n2); }
 
@@ -749,7 +749,7 @@ namespace Givaro {
         /** @overload Integer::operator+=(Integer) */
         giv_all_inlined Integer& operator += (const uint32_t n)  { return this->operator+=((uint64_t)n); }
         /** @overload Integer::operator+=(Integer) */
-        giv_all_inlined Integer& operator += (const int32_t n) { return this->operator+=((uint64_t)n); }
+        giv_all_inlined Integer& operator += (const int32_t n) { return this->operator+=((int64_t)n); }
         /** @overload Integer::operator+=(Integer) */
         template<class XXX>
         Integer& operator +=(const XXX& n) {
